@@ -4,7 +4,7 @@
 set -u
 P=$1; X=$2; shift 2
 CHECKS=${@:-$P}
-SRC=/tmp/seed/$P.out/$X
+SRC=${SEED_ROOT:-/tmp/seed}/$P.out/$X
 OUT=${SEEDEVAL_DIR:-/tmp/seedeval}/$P-$X
 export GOFLAGS=-mod=mod GOPROXY=off GOSUMDB=off GOTOOLCHAIN=local
 NS() { unshare -n sh -c 'ip link set lo up; ip link set lo multicast on 2>/dev/null; ip route add 224.0.0.0/4 dev lo 2>/dev/null; exec "$@"' sh "$@"; }
